@@ -110,3 +110,14 @@ Definition codec_wf (et : list erow) (dflt : erow) (dt : list drow) : bool :=
 
 Definition path_wf (lexbits grambits emitbits argbits : Z) : bool :=
   (63 <=? lexbits) && (63 <=? grambits) && (63 <=? emitbits) && (63 <=? argbits).
+
+(* integer case labels: `case v:` hands (T)node.<member> and `case -v:` hands (T)(0 - node.<member>)
+   (unsigned arithmetic of the member's width) to EmitCaseLabel(A label), which prints the
+   decimal text into a buffer of `buf` characters (20 characters + the terminating 0 are needed
+   for the most negative 64-bit value) *)
+Definition case_pos (membits castbits argbits v : Z) : Z :=
+  conv argbits true (conv castbits true (trunc membits v)).
+Definition case_neg (membits castbits argbits v : Z) : Z :=
+  conv argbits true (conv castbits true (trunc membits (0 - trunc membits v))).
+Definition case_wf (membits castbits argbits buf : Z) : bool :=
+  (membits =? 64) && (castbits =? 64) && (argbits =? 64) && (21 <=? buf).
